@@ -198,11 +198,39 @@ fn walk<T: Clone + PartialEq>(limit: u32, max_pages: usize, mut ask: impl FnMut(
 
 // ---------------------------------------------------------------------------
 // the direct filters (documented semantics of the rich indexer, see the head of this file)
+/// F23 (recorded finding): the rich indexer turns a prefix into the range `>= prefix AND < upper` with
+/// `upper = get_binary_upper_boundary(prefix)`; for an empty prefix that is 32 bytes of 0xff and for a prefix of n bytes
+/// 0xff it is n + 1 bytes of 0xff — values that continue the prefix with at least that many 0xff bytes are not below it.
+/// With F23_MODE set the direct filters below describe the code WITH that defect (used only to classify a difference).
+pub const SIG_F23: &str = "rich-indexer-prefix-upper-bound-sentinel";
+static F23_MODE: std::sync::atomic::AtomicBool = std::sync::atomic::AtomicBool::new(false);
+fn f23_mode() -> bool { F23_MODE.load(std::sync::atomic::Ordering::SeqCst) }
+fn with_f23<T>(f: impl FnOnce() -> T) -> T {
+    F23_MODE.store(true, std::sync::atomic::Ordering::SeqCst);
+    let r = f();
+    F23_MODE.store(false, std::sync::atomic::Ordering::SeqCst);
+    r
+}
+fn beyond_sentinel(prefix: &[u8], value: &[u8]) -> bool {
+    let upper: Option<Vec<u8>> = if prefix.is_empty() { Some(vec![0xff; 32]) } else if prefix.iter().all(|b| *b == 0xff) { Some(vec![0xff; prefix.len() + 1]) } else { None };
+    match upper { Some(u) => value.starts_with(prefix) && value >= &u[..], None => false }
+}
+fn rich_cell_pass(q: &SQ, c: &LiveCell) -> bool {
+    if !cell_pass(q, c, false) { return false; }
+    if f23_mode() {
+        if let Some(fs) = &q.f.script {
+            let other = if q.lock { c.out.typ.clone() } else { Some(c.out.lock.clone()) };
+            if let Some(o) = other { if beyond_sentinel(&fs.args, &o.args) { return false; } }
+        }
+        if let Some((d, m)) = &q.f.data { if *m <= 1 && beyond_sentinel(d, &c.out.data) { return false; } }
+    }
+    true
+}
 fn sel(q: &SQ, s: &AScript) -> bool {
     q.script.code == s.code
         && q.script.ht == s.ht
         && match q.mode {
-            0 | 1 => s.args.starts_with(&q.script.args),
+            0 | 1 => s.args.starts_with(&q.script.args) && !(f23_mode() && beyond_sentinel(&q.script.args, &s.args)),
             2 => s.args == q.script.args,
             _ => contains(&s.args, &q.script.args),
         }
@@ -213,7 +241,7 @@ fn want_cells(st: &ChainState, q: &SQ) -> Vec<LiveCell> {
         .iter()
         .filter(|c| {
             let s = if q.lock { Some(&c.out.lock) } else { c.out.typ.as_ref() };
-            s.map(|s| sel(q, s)).unwrap_or(false) && cell_pass(q, c, false)
+            s.map(|s| sel(q, s)).unwrap_or(false) && rich_cell_pass(q, c)
         })
         .cloned()
         .collect();
@@ -239,7 +267,7 @@ fn want_groups(st: &ChainState, q: &SQ) -> Vec<Group> {
     for r in st.rows.iter().filter(|r| r.lock == q.lock && sel(q, &r.script)) {
         // the cell filters look at the cell the row is about, block_range at the row's block
         let c = LiveCell { tx: 0, idx: 0, bn: r.bn, txi: r.txi, out: r.cell.clone() };
-        if !cell_pass(q, &c, false) {
+        if !rich_cell_pass(q, &c) {
             continue;
         }
         match gs.last_mut() {
@@ -345,7 +373,8 @@ fn check_cells(cx: &Ctx, q: &SQ, with_data: Option<bool>, tot: &mut Totals) -> O
                     "get_cells (pages walked to the end) differs from the filter over the chain's live cells, in chain order",
                     q, "get_cells",
                     json!({"pages": wk.pages.iter().map(|p| cells_json(p)).collect::<Vec<_>>(), "with_data": with_data, "walk_did_not_end": wk.endless}),
-                    live_json(&want), None,
+                    live_json(&want),
+                    if !wk.endless && pages_ok(&wk.pages, q.limit) && same_cells(&flat, &with_f23(|| want_cells(cx.st, q)), with_data != Some(false)) { Some(SIG_F23) } else { None },
                 );
             }
             Some(flat)
@@ -364,7 +393,8 @@ fn check_capacity(cx: &Ctx, q: &SQ, tot: &mut Totals) -> Option<Option<(u64, u64
         }
         Ok(c) => {
             if c != want {
-                viol(tot, cx, "get_cells_capacity differs from the sum over the filtered live cells / the tip (null when no cell is selected)", q, "get_cells_capacity", json!(c), json!(want), None);
+                let sig = if c == with_f23(|| want_capacity(cx.st, q, cx.tip)) { Some(SIG_F23) } else { None };
+                viol(tot, cx, "get_cells_capacity differs from the sum over the filtered live cells / the tip (null when no cell is selected)", q, "get_cells_capacity", json!(c), json!(want), sig);
             }
             Some(c)
         }
@@ -391,7 +421,8 @@ fn check_txs(cx: &Ctx, q: &SQ, tot: &mut Totals) -> Option<Vec<Group>> {
             }
             if wk.endless || !pages_ok(&wk.pages, q.limit) || got != want {
                 let pj = json!({"pages": wk.pages.iter().map(|p| json!(p.iter().map(|t| json!([t.tx, t.bn, t.txi, t.ioi, t.out])).collect::<Vec<_>>())).collect::<Vec<_>>(), "walk_did_not_end": wk.endless});
-                viol(tot, cx, "get_transactions (ungrouped, pages walked to the end) differs from the filter over the chain's transaction history", q, "get_transactions", pj, groups_json(&want), None);
+                let sig = if !wk.endless && pages_ok(&wk.pages, q.limit) && got == with_f23(|| want_groups(cx.st, q)) { Some(SIG_F23) } else { None };
+                viol(tot, cx, "get_transactions (ungrouped, pages walked to the end) differs from the filter over the chain's transaction history", q, "get_transactions", pj, groups_json(&want), sig);
             }
             Some(got)
         }
@@ -420,7 +451,8 @@ fn check_groups(cx: &Ctx, q: &SQ, tot: &mut Totals) -> Option<Vec<Group>> {
                     "get_transactions (group_by_transaction, pages walked to the end) is not the grouping of the filtered transaction history",
                     q, "get_transactions_grouped",
                     json!({"pages": wk.pages.iter().map(|p| groups_json(p)).collect::<Vec<_>>(), "walk_did_not_end": wk.endless}),
-                    groups_json(&want), None,
+                    groups_json(&want),
+                    if !wk.endless && pages_ok(&wk.pages, q.limit) && flat == with_f23(|| want_groups(cx.st, q)) { Some(SIG_F23) } else { None },
                 );
             }
             Some(flat)
